@@ -1,1 +1,369 @@
+// Package c12: interface summaries equal the data stored in the listed range.
+//
+// Drive: seeded RefDBs (as C08, with non-zero drops on most blocks) written by the production
+// DBWriter; for every interface the real (*goDB.DBWorkManager).ReadMetadata is called exactly as
+// `goQuery list` does (metadata query, runtime.NumCPU() units) for (first,last) pairs drawn from
+// {block ts, ts±1, ts±150, day boundaries ±1, before the first / after the last block, midpoints
+// between blocks}. A sample of the ranges is also run through the real `goQuery list` binary.
+//
+// Oracle 1 (independent, on the RefDB): flows-v4/v6, drops and the four counters equal the sums over
+// the stored blocks with first <= ts <= last.
+// Oracle 2: packet/byte totals equal Summary.Totals of a real engine query (no condition) over the
+// same interface and range.
 package c12
+
+import (
+	"encoding/json"
+	"fmt"
+	"os"
+	"os/exec"
+	"path/filepath"
+	"runtime"
+	"runtime/debug"
+	"sort"
+	"strconv"
+	"strings"
+
+	"github.com/els0r/goProbe/v4/pkg/goDB"
+	"github.com/els0r/goProbe/v4/pkg/goDB/encoder/encoders"
+	"github.com/els0r/goProbe/v4/pkg/goDB/engine"
+	"verifharness/eng"
+	"verifharness/fw"
+	"verifharness/gen"
+)
+
+func init() {
+	fw.Register(&fw.Check{
+		ID:    "C12",
+		Level: "exploration",
+		Rule: "case = one seeded RefDB (1-3 ifaces, 1-4 days incl. skipped days, 0-6 blocks per day, blocks on/off the 300 s grid and on day boundaries, drops on most blocks, both IP families) written by the production DBWriter; " +
+			"per interface all (first<=last) pairs (capped by seeded sampling) over {block ts, ts±1, ts±150, day start/end ±1, far before / after the data, midpoints between blocks} through ReadMetadata; a sample also through an engine query and the goQuery list binary. " +
+			"A (db,iface,range) is non-trivial iff the range holds at least one block but not all blocks of the interface; distinct by (db summary, iface, first, last).",
+		Assumptions: []string{
+			"a block lies in the range iff first <= block timestamp <= last (the rule the query engine applies, decided by C08)",
+			"block timestamps >= 1000080000 (10-digit day directories)",
+			"only the statistics of the summary are compared (the from/to columns are not part of the statement)",
+		},
+		NumCases: func(tier, variant string) int {
+			if tier == "thorough" {
+				return 500
+			}
+			return 32
+		},
+		Run:     run,
+		Prepare: prepare,
+		Require: []string{"ranges", "ranges_nontrivial", "last_between_blocks", "first_between_blocks", "last_on_block", "bound_on_day_boundary",
+			"range_outside_data", "range_spans_days", "subtracted_blocks_with_drops", "query_crosschecks", "cli_list_checks"},
+		Env: func(tier, variant string) []string { return []string{"GOMAXPROCS=2"} },
+	})
+}
+
+const goQueryEnv = "VERIF_C12_GOQUERY"
+
+// prepare builds the real goQuery binary from the tree under test.
+func prepare(p *fw.Parent) error {
+	out := filepath.Join(p.Scratch, "goQuery")
+	args := []string{"build"}
+	if mf := os.Getenv("VERIF_MODFILE"); mf != "" {
+		args = append(args, "-modfile="+mf)
+	}
+	args = append(args, "-tags", "verif", "-o", out, "github.com/els0r/goProbe/v4/cmd/goQuery")
+	cmd := exec.Command("go", args...)
+	cmd.Dir = filepath.Join(fw.VerifDir, "harness")
+	if b, err := cmd.CombinedOutput(); err != nil {
+		return fmt.Errorf("building goQuery: %v\n%s", err, b)
+	}
+	p.ChildEnv = append(p.ChildEnv, goQueryEnv+"="+out)
+	return nil
+}
+
+// Sum is what a summary reports.
+type Sum struct {
+	V4, V6, Drops  uint64
+	BR, BS, PR, PS uint64
+}
+
+func (s Sum) String() string {
+	return fmt.Sprintf("{v4:%d v6:%d drops:%d br:%d bs:%d pr:%d ps:%d}", s.V4, s.V6, s.Drops, s.BR, s.BS, s.PR, s.PS)
+}
+
+// Expect is the metadata-range oracle.
+func Expect(id *gen.IfaceData, first, last int64) (s Sum, nBlocks int) {
+	for _, b := range id.Blocks {
+		if b.TS < first || b.TS > last {
+			continue
+		}
+		nBlocks++
+		s.Drops += b.Drops
+		for _, f := range b.Flows {
+			if f.IsV4() {
+				s.V4++
+			} else {
+				s.V6++
+			}
+			s.BR += f.BR
+			s.BS += f.BS
+			s.PR += f.PR
+			s.PS += f.PS
+		}
+	}
+	return
+}
+
+// readMetadata calls the real code the way cmd/goQuery/cmd/list.go does.
+func readMetadata(dbPath, iface string, first, last int64) (s Sum, err error, panicMsg string) {
+	defer func() {
+		if r := recover(); r != nil {
+			panicMsg = fmt.Sprintf("%v\n%s", r, debug.Stack())
+		}
+	}()
+	wm, err := goDB.NewDBWorkManager(goDB.NewMetadataQuery(), dbPath, iface, runtime.NumCPU())
+	if err != nil {
+		return s, err, ""
+	}
+	im, err := wm.ReadMetadata(first, last)
+	if err != nil {
+		return s, err, ""
+	}
+	s = Sum{V4: im.Traffic.NumV4Entries, V6: im.Traffic.NumV6Entries, Drops: im.Traffic.NumDrops,
+		BR: im.Counts.BytesRcvd, BS: im.Counts.BytesSent, PR: im.Counts.PacketsRcvd, PS: im.Counts.PacketsSent}
+	return s, nil, ""
+}
+
+// boundClass classifies a bound relative to the interface's blocks (deterministic, for signatures).
+func boundClass(id *gen.IfaceData, t int64) string {
+	n := len(id.Blocks)
+	switch {
+	case t < id.Blocks[0].TS:
+		return "before_data"
+	case t > id.Blocks[n-1].TS:
+		return "after_data"
+	}
+	for _, b := range id.Blocks {
+		if b.TS == t {
+			return "on_block"
+		}
+	}
+	return "between_blocks"
+}
+
+func points(id *gen.IfaceData) []int64 {
+	set := map[int64]bool{}
+	add := func(t int64) {
+		if t >= gen.MinTS-200000 {
+			set[t] = true
+		}
+	}
+	for i, b := range id.Blocks {
+		for _, d := range []int64{0, 1, -1, 150, -150} {
+			add(b.TS + d)
+		}
+		ds := gen.DayStart(b.TS)
+		for _, d := range []int64{0, -1, 1, 86400, 86399, 86401} {
+			add(ds + d)
+		}
+		if i > 0 {
+			add((id.Blocks[i-1].TS + b.TS) / 2)
+		}
+	}
+	n := len(id.Blocks)
+	add(id.Blocks[0].TS - 1000)
+	add(id.Blocks[0].TS - 90000)
+	add(id.Blocks[n-1].TS + 1000)
+	add(id.Blocks[n-1].TS + 90000)
+	out := make([]int64, 0, len(set))
+	for t := range set {
+		out = append(out, t)
+	}
+	sort.Slice(out, func(i, j int) bool { return out[i] < out[j] })
+	return out
+}
+
+var queryTypes = []string{"time", "iface", "proto", "sip,dip", "time,dport", "raw"}
+
+func run(c *fw.Case) {
+	r := c.Rng
+	engine.VerifSetNumProcessingUnits(1 + r.Intn(4))
+	db := gen.RandRefDB(r, gen.DBOpts{MaxDays: 4, Flow: gen.FlowOpts{V6Prob: 0.45, ZeroProb: 0.03, BigCounters: r.Intn(2) == 0}, OffGrid: r.Intn(2) == 0})
+	// drops on most blocks (the generator sets them on a quarter only)
+	for i := range db.Ifaces {
+		for j := range db.Ifaces[i].Blocks {
+			if r.Intn(10) < 7 {
+				db.Ifaces[i].Blocks[j].Drops = uint64(1 + r.Intn(1000))
+			}
+		}
+	}
+	dbPath := c.Tmp + "/db"
+	enc := []encoders.Type{encoders.EncoderTypeLZ4, encoders.EncoderTypeZSTD, encoders.EncoderTypeNull}[r.Intn(3)]
+	if err := db.Write(dbPath, enc, 0); err != nil {
+		c.Violatef("write_error", "writing generated DB failed: %v", err)
+		return
+	}
+	maxPairs, nQuery, nCLI := 400, 40, 3
+	if c.Tier == "thorough" {
+		maxPairs, nQuery, nCLI = 1500, 150, 4
+	}
+	goQuery := os.Getenv(goQueryEnv)
+	for ii := range db.Ifaces {
+		id := &db.Ifaces[ii]
+		pts := points(id)
+		type pair struct{ a, b int64 }
+		var pairs []pair
+		for i := range pts {
+			for j := i; j < len(pts); j++ {
+				pairs = append(pairs, pair{pts[i], pts[j]})
+			}
+		}
+		if len(pairs) > maxPairs {
+			r.Shuffle(len(pairs), func(i, j int) { pairs[i], pairs[j] = pairs[j], pairs[i] })
+			pairs = pairs[:maxPairs]
+		}
+		c.Count("points", len(pts))
+		for pi, p := range pairs {
+			want, nb := Expect(id, p.a, p.b)
+			fc, lc := boundClass(id, p.a), boundClass(id, p.b)
+			class := "first=" + fc + ",last=" + lc
+			desc := func() string {
+				return fmt.Sprintf("db{%s} enc=%s iface=%s blocks=%s first=%d last=%d", db.Summary(), enc, id.Name, blockList(id), p.a, p.b)
+			}
+			c.Note("ReadMetadata iface=%s first=%d last=%d", id.Name, p.a, p.b)
+			got, err, pmsg := readMetadata(dbPath, id.Name, p.a, p.b)
+			c.Count("ranges", 1)
+			account(c, db, id, p.a, p.b, nb, fc, lc)
+			switch {
+			case pmsg != "":
+				c.Violatef("panic|"+class, "%s: ReadMetadata panicked: %s", desc(), firstLines(pmsg, 14))
+				continue
+			case err != nil:
+				c.Violatef("error|"+class, "%s: ReadMetadata failed: %v", desc(), err)
+				continue
+			}
+			if got.V4 != want.V4 || got.V6 != want.V6 {
+				c.Violatef("flows|"+class, "%s: summary %s, stored in range (%d blocks) %s", desc(), got, nb, want)
+			}
+			if got.Drops != want.Drops {
+				c.Violatef("drops|"+class, "%s: summary %s, stored in range (%d blocks) %s", desc(), got, nb, want)
+			}
+			if got.BR != want.BR || got.BS != want.BS || got.PR != want.PR || got.PS != want.PS {
+				c.Violatef("counters|"+class, "%s: summary %s, stored in range (%d blocks) %s", desc(), got, nb, want)
+			}
+			if pi == 0 && ii == 0 {
+				c.Sample(map[string]any{"db": db.Summary(), "iface": id.Name, "first": p.a, "last": p.b, "blocks_in_range": nb, "summary": got.String(), "oracle": want.String()})
+			}
+			// cross-check against a real query over the same interface and range
+			if pi < nQuery {
+				qt := queryTypes[r.Intn(len(queryTypes))]
+				a := eng.Args(qt, id.Name, "", p.a, p.b)
+				a.LowMem = r.Intn(3) == 0
+				c.Note("query %s iface=%s first=%d last=%d", qt, id.Name, p.a, p.b)
+				res, qerr, qp := eng.Run(dbPath, a)
+				c.Count("query_crosschecks", 1)
+				switch {
+				case qp != "":
+					c.Violatef("query_panic|"+class, "%s: query %q panicked: %s", desc(), qt, firstLines(qp, 14))
+				case qerr != nil:
+					c.Violatef("query_error|"+class, "%s: query %q failed: %v", desc(), qt, qerr)
+				default:
+					t := res.Summary.Totals
+					if t.BytesRcvd != got.BR || t.BytesSent != got.BS || t.PacketsRcvd != got.PR || t.PacketsSent != got.PS {
+						c.Violatef("query_totals|"+class, "%s: summary %s, query %q totals {br:%d bs:%d pr:%d ps:%d}", desc(), got, qt, t.BytesRcvd, t.BytesSent, t.PacketsRcvd, t.PacketsSent)
+					}
+				}
+			}
+			// end-to-end through the goQuery binary
+			if pi < nCLI && goQuery != "" {
+				cli, cerr := runCLI(goQuery, dbPath, id.Name, p.a, p.b)
+				c.Count("cli_list_checks", 1)
+				if cerr != nil {
+					c.Violatef("cli_error|"+class, "%s: goQuery list failed: %v", desc(), cerr)
+				} else if cli != got {
+					c.Violatef("cli_differs|"+class, "%s: goQuery list reports %s, ReadMetadata %s", desc(), cli, got)
+				}
+			}
+		}
+	}
+}
+
+func account(c *fw.Case, db *gen.RefDB, id *gen.IfaceData, a, b int64, nb int, fc, lc string) {
+	if nb > 0 && nb < len(id.Blocks) {
+		c.Count("ranges_nontrivial", 1)
+		c.Nontrivial(fmt.Sprintf("%s|%s|%d|%d", db.Summary(), id.Name, a, b))
+	}
+	if nb == 0 {
+		c.Count("ranges_empty", 1)
+	}
+	c.Count("first_"+fc, 1)
+	c.Count("last_"+lc, 1)
+	if (fc == "before_data" && lc == "before_data") || (fc == "after_data" && lc == "after_data") {
+		c.Count("range_outside_data", 1)
+	}
+	for _, t := range []int64{a, b} {
+		if t%86400 == 0 || t%86400 == 86399 {
+			c.Count("bound_on_day_boundary", 1)
+			break
+		}
+	}
+	if gen.DayStart(a) != gen.DayStart(b) {
+		c.Count("range_spans_days", 1)
+	}
+	// blocks of the first / last touched day that lie outside the range and carry drops
+	for _, blk := range id.Blocks {
+		if blk.Drops > 0 && ((blk.TS < a && gen.DayStart(blk.TS) == gen.DayStart(a)) || (blk.TS > b && gen.DayStart(blk.TS) == gen.DayStart(b))) {
+			c.Count("subtracted_blocks_with_drops", 1)
+			break
+		}
+	}
+}
+
+func blockList(id *gen.IfaceData) string {
+	var s []string
+	for _, b := range id.Blocks {
+		s = append(s, fmt.Sprintf("%d(%df,%dd)", b.TS, len(b.Flows), b.Drops))
+	}
+	return "[" + strings.Join(s, " ") + "]"
+}
+
+// runCLI executes `goQuery list -d db -f first -l last -e json iface`.
+func runCLI(bin, dbPath, iface string, first, last int64) (Sum, error) {
+	var s Sum
+	cmd := exec.Command(bin, "list", "-d", dbPath, "-f", strconv.FormatInt(first, 10), "-l", strconv.FormatInt(last, 10), "-e", "json", iface)
+	cmd.Env = append(os.Environ(), "GOMAXPROCS=2")
+	out, err := cmd.Output()
+	if err != nil {
+		msg := ""
+		if ee, ok := err.(*exec.ExitError); ok {
+			msg = string(ee.Stderr)
+		}
+		return s, fmt.Errorf("%v: %s %s", err, firstLines(string(out), 5), firstLines(msg, 8))
+	}
+	var ims []struct {
+		Iface  string `json:"iface"`
+		Counts struct {
+			BR uint64 `json:"br"`
+			BS uint64 `json:"bs"`
+			PR uint64 `json:"pr"`
+			PS uint64 `json:"ps"`
+		} `json:"counts"`
+		Traffic struct {
+			V4    uint64 `json:"num_v4_entries"`
+			V6    uint64 `json:"num_v6_entries"`
+			Drops uint64 `json:"num_drops"`
+		} `json:"traffic"`
+	}
+	if err := json.Unmarshal(out, &ims); err != nil {
+		return s, fmt.Errorf("unparsable output %q: %v", firstLines(string(out), 5), err)
+	}
+	if len(ims) != 1 || ims[0].Iface != iface {
+		return s, fmt.Errorf("expected exactly the summary of %s, got %s", iface, firstLines(string(out), 5))
+	}
+	m := ims[0]
+	return Sum{V4: m.Traffic.V4, V6: m.Traffic.V6, Drops: m.Traffic.Drops, BR: m.Counts.BR, BS: m.Counts.BS, PR: m.Counts.PR, PS: m.Counts.PS}, nil
+}
+
+func firstLines(s string, n int) string {
+	l := strings.Split(s, "\n")
+	if len(l) > n {
+		l = l[:n]
+	}
+	return strings.Join(l, "\n")
+}
